@@ -52,7 +52,7 @@ RULE = (
     "sectors, sizes=]; shells 8-40, requested degrees 6-30, centre, rotation seed and the function are drawn from the case rng) "
     "plus one random band-limited function f = sum_{l<=L} g_lm(r) Y_lm, L = floor(min resolved degree / 2), g_lm ~ r^l at the "
     "origin, Y from the independent recursion. Decided per case: shell angular integrals, shell-sum = integrate, spline nodal "
-    "values (and zeros above L), interpolant at all grid points, interpolant at ~60 arbitrary points (centre, +-z axis, near-axis, "
+    "values (and zeros above L), interpolant at all grid points, interpolant at 50-65 arbitrary points (centre, +-z axis, near-axis, "
     "node radii, extrapolation range) against sum spline x ref_Y, radial derivatives 1-3 / spherical derivatives / Cartesian "
     "gradient against numerical differentiation of the same returned callable, spherical average. One 'molecule' case = MolGrid of "
     "2-4 such atomic grids with Becke or arbitrary array aim-weights; the molecular interpolant and its derivative outputs are "
@@ -63,7 +63,8 @@ ASSUMPTIONS = [
     "band limit L = floor(min_i d_i / 2) for the RESOLVED per-shell degrees; the two Ahrens-Beylkin data files recorded as inexact under C02 (degrees 39 and 127) are not used",
     "radial grids have strictly increasing nodes and non-zero weights (CubicSpline and the r^2 w division require it)",
     "between radial nodes only the library's own splines (public radial_component_splines) define the interpolant; exactness is claimed at nodal radii only",
-    "Cartesian-gradient and spherical-derivative clauses are decided for r > 0 and |sin(phi)| >= 1e-4 (documented zero convention at the centre and on the z-axis is recorded, not decided); radial derivatives are decided everywhere, nu=3 not on a node sphere (one-sided)",
+    "Cartesian-gradient and spherical-derivative clauses are decided for r > 1e-6(1+|centre|) and |sin(phi)| >= 1e-4 (documented zero convention at the centre and on the z-axis is recorded, not decided); radial derivatives are decided everywhere incl. the centre and the z-axis, nu=3 not on a node sphere (one-sided)",
+    "tolerances: values 1e-9 of max|f| (per shell relaxed by (K+1)*4eps|centre|/r_i: only matters for a 1e-9 node of an off-centre grid); identities 1e-10; derivatives 1e-6 of the largest derivative over the point set plus the conditioning floor of the numerical differentiation (1e-9|F|/h^nu fit, 1e-11|F|/h stencil); spherical average back-integration 1e-6 plus the rounding of the spline's last-node evaluation times r_n^2 w_n",
     "derivative oracle = numerical differentiation of the returned callable (cubic fit along the ray, DFT on circles, 4th-order central differences), self-tested at start-up",
 ]
 LEVEL_TEXT = "Held on the executions listed: seeded band-limited functions on seeded atomic/molecular grids covering every method, radial-grid kind (with/without r=0) and degree kind; not a proof for all grids and functions."
